@@ -470,10 +470,15 @@ func (s *Server) Exec(op *Op, hist map[string][]int64, opIndex int) {
 		} else if method == "POST" {
 			method = "PUT"
 		}
-		res := s.do(method, u, map[string]string{"Content-Range": cr}, []byte(op.Data), false)
+		hdrs := map[string]string{"Content-Range": cr}
+		if op.No308 {
+			hdrs["X-Guploader-No-308"] = "yes"
+		}
+		res := s.do(method, u, hdrs, []byte(op.Data), false)
 		s.finish(r, res)
+		r.Override, _ = strconv.Atoi(res.header.Get("X-Http-Status-Code-Override"))
 		r.Persisted = -1
-		if res.code == 308 {
+		if res.code == 308 || (op.No308 && res.code == 200 && r.Override == 308) {
 			if rg := res.header.Get("Range"); strings.HasPrefix(rg, "bytes=0-") {
 				v, err := strconv.Atoi(rg[len("bytes=0-"):])
 				if err == nil {
@@ -481,7 +486,7 @@ func (s *Server) Exec(op *Op, hist map[string][]int64, opIndex int) {
 				}
 			}
 		}
-		if res.code == 200 {
+		if res.code == 200 && r.Override != 308 {
 			s.fillObject(r, res)
 			op.Gen = r.View.Gen
 		}
